@@ -6,7 +6,7 @@ import re
 from sa.model import AnalysisError, Unknown, norm, unwrap, EnumMember
 from sa.query import Facts, call_name, find_calls, try_fold, calls_in, kwarg, defs_of
 from sa.exc import ExcAnalysis
-from sa.decide import eval_predicate, accepted_set
+from sa.decide import eval_predicate, accepted_set, tabulate
 from .common import (dongle_classes, protocol_classes, device_touching, command_methods,
                      firmware, doc)
 from .c11 import _parents, catching_handler
@@ -30,6 +30,23 @@ SPEC = os.path.join(os.path.dirname(os.path.dirname(os.path.abspath(__file__))),
                     "named_causes.json")
 
 
+def _dict_display(A, fn, e):
+    """the dict display `e` denotes: a display itself, or a local name bound exactly once to one"""
+    if isinstance(e, ast.Dict):
+        return e
+    if isinstance(e, ast.Name):
+        ds = defs_of(A, fn, e.id)
+        if len(ds) == 1 and isinstance(getattr(ds[0], "value", None), ast.Dict):
+            stores = [n for n in A.own_nodes(fn) if isinstance(n, ast.Name) and n.id == e.id and isinstance(n.ctx, (ast.Store, ast.Del))]
+            muts = [n for n in A.own_nodes(fn) if isinstance(n, ast.Subscript) and isinstance(n.ctx, (ast.Store, ast.Del))
+                    and isinstance(n.value, ast.Name) and n.value.id == e.id]
+            muts += [n for n in A.own_nodes(fn) if isinstance(n, ast.Call) and isinstance(n.func, ast.Attribute) and isinstance(n.func.value, ast.Name)
+                     and n.func.value.id == e.id and n.func.attr in ("update", "pop", "setdefault", "clear", "popitem")]
+            if len(stores) == 1 and not muts:
+                return ds[0].value
+    return None
+
+
 # ---------------------------------------------------------------------------
 def value_set(run, expr, fn, pc, depth=0):
     """Set of ints an expression can evaluate to (result-code position)."""
@@ -49,12 +66,22 @@ def value_set(run, expr, fn, pc, depth=0):
         for d in ds:
             out |= value_set(run, d.value, fn, pc, depth + 1)
         return out
+    if isinstance(expr, ast.Subscript):
+        # {..}[k] / d[k] with d a local bound once to a dict display: one of the display's values (or KeyError)
+        base = _dict_display(A, fn, expr.value)
+        if base is not None:
+            out = set()
+            for vv in base.values:
+                out |= value_set(run, vv, fn, pc, depth + 1)
+            return out
     if isinstance(expr, ast.Call):
         f = expr.func
+        if A.is_noreturn_call(expr, fn, pc):
+            return set()
         # {..}.get(k, default)
         if isinstance(f, ast.Attribute) and f.attr == "get":
-            base = f.value
-            if isinstance(base, ast.Dict):
+            base = _dict_display(A, fn, f.value)
+            if base is not None:
                 out = set()
                 for vv in base.values:
                     out |= value_set(run, vv, fn, pc, depth + 1)
@@ -457,7 +484,7 @@ def _translate_dict(run, t, pc):
     return out
 
 
-def _handler_lists(run, fn, D):
+def _handler_lists(run, fn, D, domain=None):
     """For each `except HSM2DongleErrorResult` handler in fn: the try body's step id and
     [(set of EnumMember listed, response member name)] plus the default response."""
     P, A = run.P, run.A
@@ -476,23 +503,19 @@ def _handler_lists(run, fn, D):
                         step = norm(kwarg(c, "operation"))
                     elif call_name(c) == "_send_command" and step is None:
                         step = "first"
-            groups = []
-            dict_get = None
-            for x in ast.walk(h):
-                if isinstance(x, ast.If) and isinstance(x.test, ast.Compare) and isinstance(x.test.ops[0], ast.In) \
-                        and "error_code" in norm(x.test.left) and isinstance(x.test.comparators[0], ast.List):
-                    mem = set()
-                    for e in x.test.comparators[0].elts:
-                        try:
-                            mem.add(P.const_eval(e, fn.module, cls=D))
-                        except Unknown:
-                            mem.add(("sym", norm(e)))
-                    ret = [r for r in x.body if isinstance(r, ast.Return)]
-                    resp = norm(ret[0].value.elts[1]) if ret and isinstance(ret[0].value, ast.Tuple) else None
-                    groups.append((mem, resp))
-                if isinstance(x, ast.Call) and call_name(x) == "get" and "error_code" in norm(x):
-                    dict_get = x
-            out.append({"try": n, "handler": h, "step": step, "groups": groups, "dict_get": dict_get})
+            # the handler as a table: device status -> answer, by tabulating its body over every status the enum names plus one
+            # status it does not name (if-chains, `in` lists, dispatch dicts with .get / `in` + index all give the same table)
+            table = None
+            if h.name and domain is not None:
+                OTHER = 0x6FFE
+                tab = tabulate(P, fn, D, h.body, [f"{h.name}.error_code"], list(domain) + [OTHER])
+
+                def resp_of(o):
+                    if o[0] != "return" or not isinstance(o[1], tuple) or len(o[1]) != 2:
+                        return None
+                    return o[1]
+                table = {"other": resp_of(tab[OTHER]), "by_value": {unwrap(v): resp_of(tab[v]) for v in domain}}
+            out.append({"try": n, "handler": h, "step": step, "table": table})
     return out
 
 
@@ -566,7 +589,7 @@ def _tables(run, fw, D, V2):
                 "self.OP.SIGN.MERKLE_PROOF": "powhsm/src/auth_trie.c"}
     for mname in ("sign_authorized", "sign_unauthorized"):
         fn = P.method(D, mname)
-        hl = _handler_lists(run, fn, D)
+        hl = _handler_lists(run, fn, D, list(SE.values()))
         run.floor("R3", f"ErrorResult handlers in {mname}", len(hl), 4 if mname == "sign_authorized" else 1)
         for h in hl:
             src = step_src.get(h["step"])
@@ -575,9 +598,9 @@ def _tables(run, fw, D, V2):
             need = {c_auth[n] for n in thrown if n in c_auth}
             for n in thrown:
                 run.require(n in c_auth, f"{src}: THROW({n}) is not in err_code_sign_t")
-            handled = set()
-            for mem, resp in h["groups"]:
-                handled |= {unwrap(m) for m in mem if isinstance(m, EnumMember)}
+            run.require(h["table"] is not None and h["table"]["other"] is not None, f"{mname}: step `{h['step']}` handler does not answer a (bool, code) pair")
+            # a status is handled explicitly when its answer is not the one every unlisted status gets
+            handled = {v for v, r in h["table"]["by_value"].items() if r is not None and r != h["table"]["other"]}
             for n in sorted(thrown):
                 pym = py_sign_vals.get(c_auth[n])
                 run.check("R3", c_auth[n] in handled,
@@ -632,7 +655,7 @@ def _tables(run, fw, D, V2):
                               f"the documentation names {code} for this cause ({ent.get('cites', '')})")
     for ent in spec["sign"]:
         fn = P.method(D, ent["method"])
-        hl = _handler_lists(run, fn, D)
+        hl = _handler_lists(run, fn, D, list(SE.values()))
         t = tr["_translate_sign_error"]
         for cause, code in ent["causes"].items():
             run.require(cause in c_auth, f"spec names unknown firmware error {cause}")
@@ -640,12 +663,8 @@ def _tables(run, fw, D, V2):
             for h in hl:
                 if h["step"] != ent["step"]:
                     continue
-                resp = None
-                for mem, r in h["groups"]:
-                    if val in {unwrap(m) for m in mem if isinstance(m, EnumMember)}:
-                        resp = r
-                        break
-                rname = resp.split(".")[-1] if resp else "ERROR_UNEXPECTED"
+                resp = h["table"]["by_value"].get(val, h["table"]["other"])
+                rname = resp[1].name if resp is not None and isinstance(resp[1], EnumMember) else "?"
                 got = t.get(rname)
                 run.check("R3", got == code, f"{ent['method']} {ent['step']}: {cause} -> {rname} -> {code}",
                           key=f"named-cause|{ent['method']}|{ent['step']}|{cause}", where=fn.loc(h["handler"]),
